@@ -196,7 +196,7 @@ PROPS = {
                       "refused). For each, boundary and swept field values are rendered, parsed by the real TimePointParser under varying "
                       "configurations (expanded digits, basic-only, assumed / unknown / system zone), and TLC requires: the text is what the spec "
                       "renders, the decoded representation/fields/fraction/offset are exactly the generated ones, and dump-as-parsed reproduces the input.",
-        "drivers": ["c07", "c07t"], "mc": [{"module": "MC_C07.tla", "cfg": "MC_C07.cfg"}], "expect_ops": ["ParseTP", "ParseTrunc"],
+        "drivers": ["c07", "c07t"], "mc": [{"module": "MC_C07.tla", "cfg": "MC_C07.cfg"}, {"module": "MC_C08.tla", "cfg": "MC_C08.cfg"}], "expect_ops": ["ParseTP", "ParseTrunc"],
         "rule": "one case = one text under one parser configuration; all cases use boundary-biased values (non-trivial)",
         "exhaustive_part": {"quick": "all form combinations x 30 value draws; every year 0000-9999 in CCYY-MM-DD", "thorough": "all form combinations x 500 draws; every year 0000-9999 in 6 forms; years -20000..20000 with 2 extra digits"},
         "assumptions": TRUST,
@@ -207,7 +207,7 @@ PROPS = {
                       "requires parse(str(p)) to carry the same representation, fields, fraction and offset as p, to compare equal, and "
                       "str to be a fixpoint; custom complete dump formats (other representation, basic/extended, literal zones) must parse back "
                       "to the same instant. No default text is pinned (DESIGN section 3).",
-        "drivers": ["c08"], "mc": [], "expect_ops": ["StrTrip", "DumpTrip"],
+        "drivers": ["c08"], "mc": [{"module": "MC_C08.tla", "cfg": "MC_C08.cfg"}], "expect_ops": ["StrTrip", "DumpTrip"],
         "rule": "one case = one time point with its default round trip and up to 3 custom formats; boundary-biased (non-trivial)",
         "assumptions": TRUST,
     },
@@ -228,7 +228,7 @@ PROPS = {
                       "comma or point, weeks form, leading '-'); TLC re-renders the text, computes the value the designators denote and requires "
                       "the parsed Duration to be that value, parse(str(d)) == d and str to be a fixpoint; single-signed Duration objects make the "
                       "same round trip; the alternative P[YYYY]-[MM]-[DD]T[hh]:[mm]:[ss] spelling (basic/extended, calendar/ordinal) must parse to the same duration as its designator spelling.",
-        "drivers": ["c10"], "mc": [], "expect_ops": ["DurParse", "DurObj", "DurAlt"],
+        "drivers": ["c10"], "mc": [{"module": "MC_C10.tla", "cfg": "MC_C10.cfg"}], "expect_ops": ["DurParse", "DurObj", "DurAlt"],
         "rule": "one case = one duration text or object; all non-trivial",
         "assumptions": TRUST,
     },
@@ -238,7 +238,7 @@ PROPS = {
                       "directives and literal text, TLC renders what POSIX strftime gives for the civil date-time (via the calendar definition, "
                       "whatever the representation; %s as the Unix time on the timeline) and requires the library's text to be identical; strptime "
                       "of that text must recover the date/time/offset the format determines (defaults otherwise); unsupported %-letters must be refused with a ValueError-derived error.",
-        "drivers": ["c17"], "mc": [], "expect_ops": ["Strf", "Strp"],
+        "drivers": ["c17"], "mc": [{"module": "MC_C17.tla", "cfg": "MC_C17.cfg"}], "expect_ops": ["Strf", "Strp"],
         "rule": "one case = one (point, format); all non-trivial (week-date points near week-year edges, day-of-year, negative-minute offsets)",
         "exhaustive_part": {"quick": "every year 0001-9998 once", "thorough": "every year 0001-9998 three times"},
         "assumptions": TRUST,
